@@ -143,15 +143,27 @@ def run_case(case, ctx):
     ctx.tag('warm:%s' % case['warm'])
     np.random.seed(case['np_seed'] % (2 ** 32))
     engine = None
+    import copy
+    zeros_live = copy.deepcopy(case['zeros'])      # the caller's own specification object, reused (and extended) across engines
+    n_of = lambda t: int(np.prod([shape[attrs.index(a)] for a in t]))
     for k, call in enumerate(case['calls']):
+        if k >= 1 and not case['warm'] and case['np_seed'] % 3 == 0 and zeros_live:
+            # the caller rules out one more cell by appending to the very list it passed before, then builds a new estimator
+            key0 = next(iter(zeros_live))
+            have = set(map(tuple, zeros_live[key0]))
+            cand = [c for c in itertools.product(*[range(shape[attrs.index(a)]) for a in key0]) if c not in have]
+            if cand and len(have) + 1 <= max(1, n_of(key0) // 2):
+                zeros_live[key0].append(cand[int(np.random.randint(len(cand)))])
+                Z = forbidden_mask(attrs, shape, zeros_live)
+                ctx.tag('zero_list_extended_in_place_between_estimators')
         ctx.tag('solver:' + call['solver'])
         total = case['total'] if case['give_total'] else None
         if case['warm']:
             if engine is None:
-                engine = m.FactoredInference(dom, structural_zeros=case['zeros'], iters=call['iters'], warm_start=True)
+                engine = m.FactoredInference(dom, structural_zeros=zeros_live, iters=call['iters'], warm_start=True)
             engine, model = estim.estimate(dom, measure.as_tuples(call['meas']), total, call['solver'], call['iters'], engine=engine)
         else:
-            engine_c, model = estim.estimate(dom, measure.as_tuples(call['meas']), total, call['solver'], call['iters'], zeros=case['zeros'])
+            engine_c, model = estim.estimate(dom, measure.as_tuples(call['meas']), total, call['solver'], call['iters'], zeros=zeros_live)
         judge(ctx, model, attrs, shape, Z, case['rows'], 'call %d (%s, %d iters, warm=%s): ' % (k, call['solver'], call['iters'], case['warm']),
               call['solver'])
         if ctx.failures:
